@@ -1,5 +1,5 @@
 (* C15/Driver.v — entry points of the correspondence run (extracted to OCaml). *)
-From RM Require Import C15.Model C15.Schema C15.Widths C15.Utf8 C15.Pretty C15.Scalar C15.Regs C15.Consistent C15.Offsets C15.KeyOrder C15.Float C15.FnOffsets.
+From RM Require Import C15.Model C15.Schema C15.Widths C15.Utf8 C15.Pretty C15.Scalar C15.Regs C15.Consistent C15.Offsets C15.KeyOrder C15.Float C15.FnOffsets C15.Version.
 From RM Require C19.Model.
 Open Scope Z_scope.
 
@@ -39,6 +39,11 @@ Definition flip_confidence_bits (b : flip) : Z := flip_conf_bits b.
 Definition flip_confidence_text (b : flip) : list Z := flip_conf_text b.
 (* the judgement of c15_confidence_text on the REAL text against f32::to_bits of the real value *)
 Definition real_confidence_ok (bits : Z) (text : list Z) : bool := conf_text_ok bits text.
+
+(* modules[].version from the raw VS_FIXEDFILEINFO fields of the module and the OS of the dump (c15_module_version: the arms regenerated from
+   MinidumpModule::version) *)
+Definition mk_version (os sg st fhi flo phi plo : Z) : option (list Z) :=
+  module_version os {| vi_sig := sg; vi_struct := st; vi_fhi := fhi; vi_flo := flo; vi_phi := phi; vi_plo := plo |}.
 
 (* the hypotheses of c15_schema_conformance / c15_address_widths / c15_report_valid, evaluated on a real process state *)
 Definition wf_ok (s : state) : bool := wf_state s && regs_named_ok (s_registers s) && state_scalar s.
